@@ -154,7 +154,7 @@ def parse_unit(name):
                 blocks = {}
                 cur = None
                 while j < n and lines[j].strip() != "@end":
-                    mm = re.match(r"^(spec|loop \d+\??|closure \d+\??|anchor \S+?\??|after)\s*:\s*$", lines[j].strip())
+                    mm = re.match(r"^(spec|loop \d+\??|closure \d+\??|anchor \S+?\??|lifted \d+|garg \w+ \d+|after)\s*:\s*$", lines[j].strip())
                     if mm and not lines[j].startswith(" " * 8):
                         cur = mm.group(1)
                         blocks[cur] = []
@@ -283,7 +283,7 @@ def splice(fn_text, blocks, res, sec, unit):
     used = set()
     out_lines = []
     for line in fn_text.split("\n"):
-        m = re.search(r"__VX_(SPEC|LOOP_\d+|CLOSURE_\d+|ANCHOR_\w+?)__", line)
+        m = re.search(r"__VX_(SPEC|LOOP_\d+|CLOSURE_\d+|LIFTED_\d+|ANCHOR_\w+?)__", line)
         if not m:
             out_lines.append(line)
             continue
@@ -294,6 +294,8 @@ def splice(fn_text, blocks, res, sec, unit):
             key = "loop " + ph[5:]
         elif ph.startswith("CLOSURE_"):
             key = "closure " + ph[8:]
+        elif ph.startswith("LIFTED_"):
+            key = "lifted " + ph[7:]
         else:
             key = "anchor " + ph[7:]
         body = blocks.get(key)
@@ -312,9 +314,16 @@ def splice(fn_text, blocks, res, sec, unit):
                     out_lines.append(ind + "    " + l[base:])
         if after:
             out_lines.append(ind + after)
-    for k in list(blocks):
-        if k.endswith("?"):
-            continue
+    text = "\n".join(out_lines)
+    def garg(m):
+        key = "garg %s %s" % (m.group(1), m.group(2))
+        used.add(key)
+        body = blocks.get(key)
+        if body is None:
+            raise Undecided("bad recipe: no ghost argument text for call site `%s` of %s" % (key, sec.name))
+        return " ".join(l.strip() for l in body if l.strip())
+    text = re.sub(r"__vx_garg\s*!\s*\(\s*(\w+)\s*,\s*(\d+)\s*\)", garg, text)
+    out_lines = text.split("\n")
     for k in blocks:
         if k.endswith("?"):
             continue
@@ -365,6 +374,13 @@ def audit_recipe_block(key, lines, where):
         first = re.match(r"[a-z_]+", text)
         if not first or first.group(0) not in SPEC_KEYWORDS:
             raise Undecided("bad recipe: %s: block `%s` must start with a specification keyword" % (where, key))
+    elif key.startswith("lifted "):
+        first = re.match(r"[a-z_]+", text)
+        if not first or first.group(0) not in SPEC_KEYWORDS:
+            raise Undecided("bad recipe: %s: block `%s` must start with a specification keyword" % (where, key))
+    elif key.startswith("garg "):
+        if not re.match(r"Ghost\(", text):
+            raise Undecided("bad recipe: %s: ghost argument must be `Ghost(..)`" % where)
     elif key.startswith("closure "):
         if not (text.startswith("->") or re.match(r"(requires|ensures)\b", text)):
             raise Undecided("bad recipe: %s: closure block must be `-> (name: T) requires.. ensures..`" % where)
@@ -425,7 +441,8 @@ def assemble(unit, twin=False):
                         sp.append("    ensures")
                     sp.append("        false, // @twin %s" % s.name)
                     blocks["spec"] = sp
-                text = splice(r["text"], blocks, r, s, unit)
+                full_fn_text = r["text"] + "".join("\n" + lt for lt in (r.get("lifted") or []))
+                text = splice(full_fn_text, blocks, r, s, unit)
                 if s.opts.get("assume"):
                     text = make_assumed(text)
                     a.assumed.append((s.impl + "::" if s.impl else "") + s.name)
@@ -436,12 +453,6 @@ def assemble(unit, twin=False):
                         "loops": r["loops"], "closures": r["closures"], "rules": r.get("rules", {})}
                 a.functions.append(meta)
                 chunks.append((text, "%s:%d" % (r["file"], r["line_start"]), meta))
-                for lt in lifted:
-                    # lifted closure bodies (R4): their specs come from recipe block `after`? no: from a dedicated block
-                    lt_blocks = {}
-                    if "lifted" in s.opts:
-                        pass
-                    chunks.append((lt.replace("__VX_SPEC__", "\n".join(s.blocks.get("anchor lifted_spec", []))), "lifted from " + label, None))
     body = []
     for text, origin, meta in chunks:
         body.append("// ---- %s%s" % ("extracted " if meta else "", origin))
